@@ -257,6 +257,51 @@ func TestC01(t *testing.T) {
 			}
 		})
 	}
+	// the same behind the heads of constructs that are still open, or that
+	// the lexer and the parser leave at different moments
+	{
+		heads := []string{"a ( )", "a ( ) \n", "for a", "for a in a", "case a in", "case a in a )", "if a ; then", "while a ; do", "{", "(", "a |", "a &&",
+			"a << E", "a << E ;", "$(", "`", "a ( ) {", "a $( a", "1 <", "if a ; then a ; else", "case a in a ) a ;;", "! a", "a ; }", "a ; fi"}
+		hn := 2
+		k := 0
+		for _, h := range heads {
+			for n := 1; n <= hn; n++ {
+				gen.TokenStrings(n, func(idx int, toks []string) {
+					k++
+					if k%nsh != sh {
+						return
+					}
+					src := h + " " + strings.Join(toks, " ")
+					if k%4 == 1 {
+						src = strings.ReplaceAll(h, " ", "") + strings.Join(toks, "")
+					}
+					run(t, wproto.Req{Op: "parse", Src: src, Kind: c01Kinds[k%len(c01Kinds)], Cmd: k%7 == 0}, false)
+					st.Class("token_strings_behind_open_constructs")
+				})
+			}
+		}
+		st.Note("all strings of <= %d tokens behind each of %d heads (function headers, for / case / if / while heads, open groups, subshells, substitutions and backquotes, pending here-documents, a dangling operator, a closer without opener)", hn, len(heads))
+	}
+	// many here-documents pending at one newline
+	for _, nd := range []int{5, 15, 16, 17, 18, 33, 64, 100} {
+		for vi, wrap := range [][2]string{{"", ""}, {"a $(", ")\n"}, {"{ ", "}\n"}, {"a `", "`\n"}} {
+			if (nd+vi)%nsh != sh {
+				continue
+			}
+			var b strings.Builder
+			b.WriteString(wrap[0] + "cat")
+			for i := 0; i < nd; i++ {
+				fmt.Fprintf(&b, " %s<<E%d", []string{"", "3", ""}[i%3], i)
+			}
+			b.WriteString("\n")
+			for i := 0; i < nd; i++ {
+				fmt.Fprintf(&b, "body %d\nE%d\n", i, i)
+			}
+			b.WriteString(wrap[1])
+			run(t, wproto.Req{Op: "parse", Src: b.String(), Kind: c01Kinds[nd%len(c01Kinds)]}, false)
+			st.Class("many_here_documents_at_one_newline")
+		}
+	}
 	st.Exhaustive = true
 	st.Note("exhaustive: all strings of <= %d tokens over the %d-token alphabet, blank-separated and concatenated, source kind rotating over string / []byte / io.Reader / custom RuneScanner / a RuneScanner whose UnreadRune steps back even after a failed read / one that returns a rune together with io.EOF / io.Readers of a func type and of a struct type with a slice field (not comparable) / *bytes.Buffer / an io.Reader and a RuneScanner that end with an error wrapping io.EOF (a failing read, for the parser) / an io.Reader that fails half-way and a RuneScanner that fails after two thirds with an error whose type is not comparable, every 11th with a second call on the same source object, each under GODEBUG panicnil=0 and panicnil=1, ParseCommands (every 7th: ParseCommand; every 5th: an environment with an empty alias table)", maxn, len(gen.TokenAlphabet))
 
@@ -336,10 +381,10 @@ func TestC01(t *testing.T) {
 	// (i-c) small alias tables, systematically: a value that begins with another
 	// alias and goes on with a fragment that may open a nested construct
 	{
-		heads := []string{"", "b ", "b;", "b", "a ", "b\n"}
+		heads := []string{"", "b ", "b;", "b", "a ", "b\n", "a"}
 		frags := []string{"", "x", "$(", "`", "$((", "${", "'", "\"", "((", "(", "{ ", "<<E\n", "$(x)", "`x`", ";", "|", "&&", "$x", "\\", "if", "! x", "$(! x", "#", ")"}
 		bvals := []string{"echo", "echo ", "", "a", "b ", "c;"}
-		srcs := []string{"a", "a x", "a)", "a`", "a;a", "b a", "x; a\n"}
+		srcs := []string{"a", "a x", "a)", "a`", "a;a", "b a", "x; a\n", "for x a", "for x; a", "for x in y; a", "case x a", "for x a;b", "case x in a"}
 		k := 0
 		for _, h := range heads {
 			for _, f := range frags {
